@@ -537,3 +537,40 @@ seeded('C04', 'warm-up-before-start guard dropped from initialize', 'R4.1',
        [('simulator', "        if not replication.warmup_sim_time >= replication.start_sim_time:\n            raise DSOLError(f\"replication {replication} has its warmup time before its start time\")\n", "")], key='schedule_event_abs')
 benign('C04', 'warm-up guard written as `<`-free comparison on the other side',
        [('simulator', "        if not replication.warmup_sim_time >= replication.start_sim_time:", "        if not (replication.warmup_sim_time >= replication.start_sim_time):")])
+
+# ----- added after the second round of independently seeded changes (benign twins of the new rules)
+benign('C12', 'next_int with int() instead of math.floor',
+       [('streams', "        return lo + math.floor((hi - lo + 1) * self._random.random())", "        return lo + int((hi - lo + 1) * self._random.random())")])
+seeded('C12', 'floor taken over the float sum lo + width*u', 'R12.5',
+       [('streams', "        return lo + math.floor((hi - lo + 1) * self._random.random())", "        return math.floor(lo + (hi - lo + 1) * self._random.random())")])
+benign('C09', 'mean update written as assignment (still one convex step)',
+       [('statistics', "        self._m1 += delta / n\n", "        self._m1 = self._m1 + delta / n\n")])
+seeded('C09', 'mean recomputed from the running sum', 'R9.6',
+       [('statistics', "        self._m1 += delta / n\n", "        self._m1 = (self._sum + value) / n\n")])
+seeded('C09', 'NaN test without float conversion', 'R9.2b',
+       [('statistics', "        if math.isnan(value):\n            raise ValueError(\"tally registered value cannot be nan\")\n        if self._n == 0:\n            self._min = +math.inf", "        if value != value:\n            raise ValueError(\"tally registered value cannot be nan\")\n        if self._n == 0:\n            self._min = +math.inf")])
+benign('C10', 'weighted mean step through a local factor',
+       [('statistics', "        self._weighted_mean += (weight / self._sum_of_weights \n                * (value - prev_weighted_mean))", "        c = weight / self._sum_of_weights\n        self._weighted_mean = prev_weighted_mean + c * (value - prev_weighted_mean)")])
+seeded('C10', 'weighted mean as quotient of sums', 'R10.6',
+       [('statistics', "        self._weighted_mean += (weight / self._sum_of_weights \n                * (value - prev_weighted_mean))", "        self._weighted_mean = (self._weighted_sum + weight * value) / self._sum_of_weights")])
+benign('C13', 'driver iterates items()',
+       [('streams', "        for key in streams.keys():\n            self.update_seed(key, streams[key], replication_nr)", "        for key, stream in streams.items():\n            self.update_seed(key, stream, replication_nr)")])
+benign('C05', 'execute wraps BaseException explicitly',
+       [('simevent', "            self._method(**self._kwargs)\n        except:", "            self._method(**self._kwargs)\n        except BaseException:")])
+seeded('C05', 'execute wraps only Exception', 'R5.1',
+       [('simevent', "            self._method(**self._kwargs)\n        except:", "            self._method(**self._kwargs)\n        except Exception:")], key='exception-classes')
+benign('C18', 'dotted-key remainder via split with maxsplit',
+       [('parameters', "            return self._value[parts[0]].remove(key[key.find('.') + 1:])", "            return self._value[parts[0]].remove(key.split('.', 1)[1])")])
+seeded('C18', 'remove recurses with the second key element only', 'R18.10',
+       [('parameters', "            return self._value[parts[0]].remove(key[key.find('.') + 1:])", "            return self._value[parts[0]].remove(parts[1])")])
+seeded('C06', 'cleanup forgets the registered initial methods', 'R6.4',
+       [('simulator', "            self.__worker.cleanup()\n            self.__worker = None\n", "            self.__worker.cleanup()\n            self.__worker = None\n        self._initial_methods.clear()\n")])
+seeded('C11', 'class-level statistics registry', 'R11.3',
+       [('model', "        self._output_statistics: Dict[str, StatisticsInterface] = {}\n", ""),
+        ('model', "class DSOLModel(ModelInterface):\n", "class DSOLModel(ModelInterface):\n    _output_statistics: Dict[str, StatisticsInterface] = {}\n")], key='shared')
+seeded('C15', 'geometric pmf through exp(lnp * k) (inf * 0 for p = 1)', 'R15.1',
+       [('distributions', "            return self._p * (1.0 - self._p) ** observation", "            return self._p * math.exp(self._lnp * observation)")], key='DistGeometric')
+seeded('C02', 'cancel_event skips events at the current time', 'R2.6',
+       [('simulator', "        self._eventlist.remove(event)", "        if event.time <= self._simulator_time:\n            return\n        self._eventlist.remove(event)")])
+seeded('C07', 'streams split with key-view set algebra', 'R7.1',
+       [('streams', "        for key in streams.keys():\n            self.update_seed(key, streams[key], replication_nr)", "        for key in streams.keys() & streams.keys():\n            self.update_seed(key, streams[key], replication_nr)")], key='iterate')
